@@ -211,6 +211,8 @@ func prefixFor(sc scen) *chainx.Prefix {
 
 var prefixes = map[bool]*chainx.Prefix{}
 
+var probed = map[bool]bool{} // prefix kind -> its directory reloads (checked in a child process)
+
 func removePrefixes() {
 	for _, p := range prefixes {
 		p.Remove()
@@ -623,6 +625,7 @@ var (
 	bound      = flag.Int("bound", 2, "deviation bound")
 	replayFile = flag.String("replay", "", "replay a recorded schedule")
 	maxExecs   = flag.Int("max-execs", 0, "per-worker cap")
+	probe      = flag.String("probe", "", "internal: build the prefix of this scenario, reopen a copy of it and compare it with the reference (exit 0 / 1)")
 	racePass   = flag.Int("racepass", 0, "internal: free-running iterations of every scenario (binary built with -race)")
 )
 
@@ -764,6 +767,30 @@ func main() {
 		syscall.Setrlimit(syscall.RLIMIT_AS, &lim)
 	}
 
+	if *probe != "" {
+		lim := syscall.Rlimit{Cur: 3 << 30, Max: 3 << 30}
+		syscall.Setrlimit(syscall.RLIMIT_AS, &lim)
+		for _, sc := range scs {
+			if sc.name == *probe {
+				p := prefixFor(sc)
+				code := 0
+				if why := ctlTry(func() {
+					s := p.NewSession("c11probe")
+					if k, w := s.Compare(); k != "" {
+						fmt.Fprintln(os.Stderr, "PROBE: the directory written by building and closing the prefix chain does not reload as that chain:", k, w)
+						code = 1
+					}
+					s.Close()
+				}); why != "" {
+					fmt.Fprintln(os.Stderr, "PROBE: reopening the prefix directory:", why)
+					code = 1
+				}
+				removePrefixes()
+				os.Exit(code)
+			}
+		}
+		ev.HarnessError("unknown scenario %s", *probe)
+	}
 	if *worker != "" {
 		// what an earlier execution left on disk is read back by the code under test: a damaged snapshot
 		// must not be able to take the machine's memory (a worker that hits the limit dies with Go's
@@ -823,6 +850,24 @@ func main() {
 		}
 		if os.Getenv("C11_BOUND") != "" {
 			fmt.Sscan(os.Getenv("C11_BOUND"), &B)
+		}
+		// the starting directory is itself written by the code under test (prefix chain, then Close): before
+		// this process opens copies of it, a child under a memory limit shows that it reloads as that chain
+		if ok, done := probed[sc.compressed]; !done {
+			cmd := exec.Command(os.Args[0], "--probe", sc.name, "--tier", r.Tier)
+			var perr strings.Builder
+			cmd.Stderr = &perr
+			err := cmd.Run()
+			probed[sc.compressed] = err == nil
+			if err != nil {
+				kind := map[bool]string{false: "plain-records", true: "compressed-records"}[sc.compressed]
+				r.Report("start-directory/"+kind+"/snapshot-of-the-prefix-chain-does-not-reload", fmt.Sprintf("building the %d-block prefix and closing it leaves a directory that a fresh process cannot reopen as that chain: %v; %s", prefixLen, err, explore.Short(perr.String(), 600)), map[string]interface{}{"scenario": sc.name})
+			}
+		} else if !ok {
+			continue
+		}
+		if !probed[sc.compressed] {
+			continue
 		}
 		p := prefixFor(sc)
 		blocks := sc.blocks(p)
@@ -928,7 +973,14 @@ func main() {
 	// ---- separate free-running pass under the Go race detector ----
 	raceRuns, raceReports := 0, 0
 	raceBin := ev.OutDir() + "/bin/c11-race"
-	if _, err := os.Stat(raceBin); err == nil && os.Getenv("C11_ONLY") == "" {
+	startDirsReload := true
+	for _, ok := range probed {
+		startDirsReload = startDirsReload && ok
+	}
+	if !startDirsReload {
+		fmt.Fprintln(os.Stderr, "free-running pass skipped: a starting directory does not reload (reported above)")
+	}
+	if _, err := os.Stat(raceBin); err == nil && os.Getenv("C11_ONLY") == "" && startDirsReload {
 		iters := 3
 		if r.Thorough() {
 			iters = 20
